@@ -10,6 +10,20 @@ COMMON_NOTE = ("Trusted base: TLC 1.8 evaluating the TLA+ specification in /veri
                "assumption of DESIGN 2.5 for the exhaustive part; simulated / random traces go beyond it.")
 
 CHECKS = {
+ "C09": dict(engine="CpAls", design="3/C09",
+   text=("CpAls.tla is the control skeleton of the alternating least-squares fit observed through the data tensor's "
+         "kernel: Start / Kernel(n, factor identities) / Return(observations) / Truncated(k).  TLC model-checks it "
+         "against an abstract Gauss-Seidel implementation for every mode order x every set of optimised modes x "
+         "iteration limit (the contract is implementable, iteration bound, non-optimised modes never updated, one "
+         "update per mode and sweep) and checks that a Jacobi-style implementation is refused.  Each configuration is "
+         "run on dense / sparse / Tucker / sum data through a duck-typed recording wrapper; TLC validates the recorded "
+         "traces: mode order, every kernel call sees the latest factors and the freshly updated one, first call uses "
+         "the returned initial guess, iteration count, normal form, reported fit and residual = recomputed (1e-7), "
+         "normal equations of the last updated factor, data and guess untouched, truncated runs prefix-consistent "
+         "with non-decreasing fit."),
+   technique="TLA+ control-state machine CpAls; TLC model checking (incl. refusal of a Jacobi mutant) + configuration generation; recorded kernel-call traces validated by TLC",
+   note=("Numeric observations (fit, residual, stationarity, normal form) are recomputed with plain numpy on dense arrays "
+         "(trusted, in harness/c09.py); TLC decides the relations on every recorded run.")),
  "C12": dict(engine="Gcp", design="3/C12",
    text=("Two specifications.  Gcp.tla (exact integers): objective = weighted sum of the element loss over all entries, "
          "factor gradients by the chain rule, the sampled estimator as a weighted sum over an arbitrary sample list; "
